@@ -40,7 +40,7 @@ Inductive case :=
 Fixpoint gen_seq (ctr : N -> N) (calls : list ctxinst) : list token :=
   match calls with
   | [] => []
-  | c :: r => let n := N.succ (ctr (cid c)) in gen_token c n :: gen_seq (updN ctr (cid c) n) r
+  | c :: r => let n := N.succ (ctr (iid c)) in gen_token c n :: gen_seq (updN ctr (iid c) n) r
   end.
 
 Fixpoint pattern_eqb (mt : list token) (obs : list N) : bool :=
